@@ -717,6 +717,42 @@ theorem shapePool2d_len_le_cap (s k st : List Nat) (c : Bool) (r : Shape) (bS : 
     (h : NN.shapePool2d s k st c = some r) (hs : s.length ≤ bS) : r.length ≤ capSame bS := by
   rw [CapL.shapePool2d_length s k st c r h]; exact hs
 
+/-! ### index maps: the source index a view hands to its operand is held by a container bounded like the SOURCE shape
+(`static_vector<_, bounded_size_v<src_shape_t>>` in `resolve_optype<sliding_window_t | roll_t | resize_t | expand_t |
+diagonal_t | take_t>`): it never has more entries than the source has axes -/
+
+theorem indexSlidingWindow_len_le_cap (d : Idx) (s : Shape) (axes : Option (List Int)) (r : Idx) (bS : Nat)
+    (h : Index.indexSlidingWindow d s.length axes = some r) (hs : s.length ≤ bS) : r.length ≤ capSame bS :=
+  Nat.le_trans (CapL.indexSlidingWindow_length_le d s.length axes r h) hs
+
+theorem indexRoll_len_le_cap (s : Shape) (d : Idx) (shifts axes : List Int) (r : Idx) (bS : Nat)
+    (h : Index.indexRollU s d shifts axes = some r) (hd : d.length = s.length) (hs : s.length ≤ bS) :
+    r.length ≤ capSame bS := by
+  rw [CapL.indexRollLoop_length s d axes shifts d r h, hd]; exact hs
+
+theorem indexResize_len_le_cap (d : Idx) (s dst : Shape) (bS : Nat) (hs : s.length ≤ bS) :
+    (Index.indexResize d s dst).length ≤ capSame bS :=
+  Nat.le_trans (CapL.indexResize_length_le d s dst) hs
+
+theorem indexExpand_len_le_cap (d : Idx) (s : Shape) (ks sps : List Nat) (r : Idx) (bS : Nat)
+    (h : Index.indexExpand d ks sps = some r) (hd : d.length = s.length) (hs : s.length ≤ bS) : r.length ≤ capSame bS := by
+  rw [CapL.indexExpand_length d ks sps r h, hd]; exact hs
+
+theorem indexDiagonal_len_le_cap (s : Shape) (d : Idx) (off : Int) (a1 a2 : Nat) (r : Idx) (bS : Nat)
+    (h : Index.indexDiagonal s d off a1 a2 = some r) (hs : s.length ≤ bS) : r.length ≤ capSame bS := by
+  rw [CapL.indexDiagonal_length s d off a1 a2 r h]; exact hs
+
+theorem indexTake_len_le_cap (d : Idx) (s : Shape) (indices : List Int) (axis : Int) (bS : Nat)
+    (hd : d.length = s.length) (hs : s.length ≤ bS) : (Index.indexTake d s indices axis).length ≤ capSame bS := by
+  simp only [Index.indexTake, Index.mapAt_length, hd]; exact hs
+
+example : Index.indexSlidingWindow [1,0,2,1,1,0,1] 4 (some [0,-1,1]) = some [2,1,2,1] := by decide
+example : Index.indexRollU [5,6,7,8] [0,1,2,3] [1,2,3] [0,-1,1] = some [4,4,2,1] := by decide
+example : Index.indexResize [2,1,0,3] [5,6,7,8] [3,2,1,4] = [3,3,0,6] := by decide
+example : Index.indexExpand [2,0,1,3] [0,3,1] [1,2,1] = some [1,0,1,1] := by decide
+example : Index.indexDiagonal [5,6,7,8] [1,2,3] 1 0 3 = some [3,1,2,4] := by decide
+example : Index.indexTake [1,2,0,3] [5,6,7,8] [2,-1,0] (-2) = [1,2,2,3] := by decide
+
 /-! non-vacuity: every operand AT FULL CAPACITY (rank-4 shape in a container bounded by 4, three axes in a container bounded
     by 3) — the hypotheses hold and the result fills the bound exactly where the function adds axes -/
 example : shapeExpandDims [2,3,4,5] [0,2,-1] = some [1,2,1,3,4,5,1] ∧ [1,2,1,3,4,5,1].length = capExpandDims 4 3 := by decide
